@@ -1,4 +1,4 @@
 From Coq Require Import Extraction ExtrOcamlBasic.
 From PV Require Import Lib.ExtBase C19.Model C21.Model.
 Extraction "model.ml" ext_base_z ext_base_n ext_base_nat ext_base_res ext_base_list
-  op_trim op_remove op_collect op_write op_insert ids root_count tree_ok info_ok sorted nt_insert.
+  op_trim op_remove op_collect op_write op_insert ids root_count tree_ok info_ok sorted nt_insert write_versions effective.
